@@ -8,6 +8,8 @@
 //                    (b) TOKENS: ~40 tokens derived from the template (every key in every spelling incl. "--key=", "--=v",
 //                                "--", "-", glued/grouped forms, values, empty word); lines of <= 3 (quick) / <= 4 (thorough)
 //                    (c) PROGRAM NAMES: every string of length <= 3 over {a / .} and lengths 15,16,17,23,24,255,256
+//                    (d) LONG LISTS: 0..24 values into vector / int[16] / std::array<int,16> / 12-tuple destinations that
+//                                have a formatter for value position 0, 1 or 2 (formatter table boundary)
 // sources / flags  : plain; program-argument file (absent / present with the same line); environment variable (unset,
 //                    empty, set to the line); argument-file argument; Groups::evalArguments on the same line
 // oracle           : AddressSanitizer + UBSan + libstdc++ assertions report nothing (abort => the supervisor attributes the
@@ -20,6 +22,7 @@
 #include <map>
 #include <bitset>
 #include <tuple>
+#include <array>
 using namespace celma::prog_args;
 
 extern "C" void exit(int code) { fprintf(stderr, "UNEXPECTED-EXIT code %d\n", code); fflush(stderr); abort(); }
@@ -101,6 +104,36 @@ static void eval_line(int mode, const std::vector<std::string>& words, const std
    if (mode == PROGARG_PRESENT) unlink(pa.c_str());
 }
 
+
+// ---- (d) long value lists for destinations that pass a running value position to their formatters
+// destination kinds vector<int>, int[16], std::array<int,16>, 12-tuple; one formatter for position k (0..2), none, or a general one;
+// n = 0..24 values, written as one list and (vector, multi-value) as separate words. The formatter table is sized from k, so the
+// interesting value positions lie around k + 10.
+typedef std::tuple<int, int, int, int, int, int, int, int, int, int, int, int> Tuple12;
+static void eval_long_list(int kind, int fmtpos, int n, bool separate) {
+   static const char* kname[] = {"vector<int>", "int[16]", "array<int,16>", "tuple<12 x int>"};
+   std::vector<std::string> words{"-l"};
+   if (separate) { for (int i = 0; i < n; ++i) words.push_back(std::to_string(i % 10)); }
+   else { std::string l; for (int i = 0; i < n; ++i) l += (i ? "," : "") + std::to_string(i % 10); words.push_back(l); }
+   vf::note(std::string("[longlist] ") + kname[kind] + " format position " + std::to_string(fmtpos) + " " + hc::words_text(words));
+   int outcome = 0; std::string what;
+   {
+      std::vector<int> vec; int carr[16] = {0}; std::array<int, 16> sarr{}; Tuple12 tup{};
+      std::ostringstream out, err; hc::Argv av(words, "prog");
+      try {
+         Handler h(out, err, 0); celma::prog_args::detail::TypedArgBase* t = nullptr;
+         switch (kind) { case 0: t = h.addArgument("l", DEST_VAR(vec), "vector"); t->setTakesMultiValue(); break; case 1: t = h.addArgument("l", DEST_VAR(carr), "C array"); break;
+                         case 2: t = h.addArgument("l", DEST_VAR(sarr), "std::array"); break; default: t = h.addArgument("l", DEST_VAR(tup), "tuple"); }
+         if (fmtpos >= 0) t->addFormatPos(fmtpos, uppercase()); else if (fmtpos == -1) t->addFormat(uppercase());
+         h.evalArguments(av.argc(), av.argv());
+      } catch (const std::exception& e) { outcome = 1; what = e.what(); if (g_exc_types.size() < 30) g_exc_types.insert(typeid(e).name()); }
+      catch (...) { outcome = 2; }
+   }
+   ++g_evals; vf::heartbeat(); if (outcome == 0) ++g_returned; else ++g_threw;
+   if (vf::verbose()) printf("  longlist %s fmtpos=%d %s -> %s %s\n", kname[kind], fmtpos, hc::words_text(words).c_str(), outcome == 0 ? "returns" : outcome == 1 ? "std::exception" : "OTHER EXCEPTION", what.c_str());
+   if (outcome == 2) vf::violation(std::string("non-std-exception|longlist|") + kname[kind], std::string(kname[kind]) + " line " + hc::words_text(words) + ": an exception that is not derived from std::exception escaped", std::to_string(vf::current_case()));
+}
+
 static void all_modes(const std::vector<std::string>& words, const std::string& family) { for (int m = 0; m < NMODES; ++m) eval_line(m, words, "prog", family); }
 
 int main(int argc, char** argv) {
@@ -149,6 +182,13 @@ int main(int argc, char** argv) {
       for (int m = 0; m < NMODES; ++m) { eval_line(m, {}, nm, "progname"); eval_line(m, {"-a"}, nm, "progname"); eval_line(m, {"-v", "5", "x"}, nm, "progname"); }
       vf::nontrivial_by_construction();
    }
+   // ---- (d) long value lists (see eval_long_list)
+   for (int kind = 0; kind < 4; ++kind) for (int fmtpos = -2; fmtpos <= 2; ++fmtpos) {       // -2: no formatter, -1: general formatter
+      if (!vf::want_case()) continue;
+      for (int n = 0; n <= 24; ++n) { eval_long_list(kind, fmtpos, n, false); if (kind == 0 && n > 0) eval_long_list(kind, fmtpos, n, true); }
+      vf::nontrivial_by_construction();
+   }
+   vf::sample("long lists: -l 0,1,2,..,(n-1) for n = 0..24 into vector / int[16] / array<int,16> / 12-tuple with a formatter for position 0, 1 or 2");
    vf::sample("program names: '" + names[6] + "', '" + names[21] + "', 255 x 'p' ... with empty line, '-a', '-v 5 x' in 8 source modes");
    vf::count("evaluations", g_evals); vf::count("transitions", g_evals); vf::count("states", g_evals);
    vf::count("returned_normally", g_returned); vf::count("threw_std_exception", g_threw);
